@@ -184,8 +184,15 @@ def _unit_worker(args):
                                 res["_replay_cache"] = rp
                             rec["replay"] = rp
                         except Exception as e:
-                            rec["replay"] = dict(reproduced=False, error="replay harness failed: %s: %s" % (type(e).__name__, e),
-                                                 tb=traceback.format_exc()[-1500:])
+                            frames = traceback.extract_tb(e.__traceback__)
+                            in_repo = [fr for fr in frames if os.path.abspath(fr.filename).startswith(os.path.abspath(repo) + os.sep)]
+                            if in_repo:      # the real code raised on the replayed input
+                                rec["replay"] = dict(reproduced=True, clause="total: the real function must not raise",
+                                                     error="%s: %s" % (type(e).__name__, e), where="%s:%d" % (in_repo[-1].filename, in_repo[-1].lineno))
+                            else:
+                                rec["replay"] = dict(reproduced=False, error="replay harness failed: %s: %s" % (type(e).__name__, e),
+                                                     tb=traceback.format_exc()[-1500:])
+                            res["_replay_cache"] = rec["replay"]
                 if r["verdict"] == "unknown":
                     rec["reason"] = r.get("reason", "")
                 if len(res["samples"]) < 3 and not ob.get("trivial") and r["verdict"] == "valid":
